@@ -93,7 +93,7 @@ fn observe(vm: &Vm, h: &StepHeader) -> Obs {
                 0xc0 => (ra, rb), 0xc1 | 0xc2 | 0xc7 => (rb, 1), _ => (ra, 1),
             };
             if let Some(key) = mem32(kp) {
-                let n = n.min(64);
+                let n = n.min(4096);
                 match opc {
                     0x38 | 0xc1 | 0xc2 | 0xc7 => { read(&key, &mut overlay, &mut micro); }
                     0x39 => for i in 0..n { match key_add(&key, i) { Some(k) => { read(&k, &mut overlay, &mut micro); } None => break } },
@@ -376,15 +376,18 @@ fn dptr(items: &mut Vec<Asm>, r: u8, off: usize) {
     items.push(Asm::I(op::movi(r, off as u32)));
     items.push(Asm::I(op::add(r, r, R_DATA)));
 }
-fn boundary_len(rng: &mut Rng, size: u64) -> u64 {
-    match rng.below(12) {
-        0 => 0, 1 => 1, 2 => 7, 3 => 8, 4 => size.saturating_sub(1), 5 => size, 6 => size + 1, 7 => size + 9,
-        8 => 5000, 9 => 200_000, 10 => size / 2, _ => rng.below(2 * size + 20),
+/// requested lengths around the stored value's length; `slot` walks through the list so that
+/// every boundary (much larger first) is hit for every kind of instruction
+fn boundary_len(rng: &mut Rng, size: u64, slot: u64) -> u64 {
+    match slot % 12 {
+        0 => 60_000, 1 => size + 9, 2 => 0, 3 => size, 4 => size + 1, 5 => 7, 6 => size.saturating_sub(1), 7 => 8, 8 => 1,
+        9 => 5000, 10 => size / 2, _ => rng.below(2 * size + 20),
     }
 }
 
 /// one directed script (or worker contract) exercising a multi-charge instruction with boundary operands
 fn directed_case(rng: &mut Rng, schedule: GasSchedule, kind: u64) -> Scenario {
+    let slot = kind / 10;
     let gtf = Asm::I(op::gtf(R_DATA, 0u8, GTFArgs::ScriptData as u16));
     let (a, b, c, d, e) = (0x20u8, 0x21u8, 0x22u8, 0x23u8, 0x24u8);
     // worker contract: storage / mint / tr sequences
@@ -395,17 +398,17 @@ fn directed_case(rng: &mut Rng, schedule: GasSchedule, kind: u64) -> Scenario {
     let (id_off, blob_off, asset_off, call_off, key_off) = (probe.id_off.clone(), probe.blob_off.clone(), probe.asset_off.clone(), probe.call_off.clone(), probe.key_off);
     let n_c = CODE_SIZES.len();
     let widx = n_c; // worker index
-    let ci = rng.below(n_c as u64 + 1) as usize; // n_c = the undeployed id
+    let ci = if rng.chance(1, 8) { n_c } else { rng.below(n_c as u64) as usize }; // n_c = the undeployed id
     let csize = if ci < n_c { CODE_SIZES[ci] as u64 } else { 0 };
     let coff = if ci < n_c { id_off[ci] } else { id_off[n_c + 1] };
-    let bi = rng.below(BLOB_SIZES.len() as u64 + 1) as usize;
+    let bi = if rng.chance(1, 8) { BLOB_SIZES.len() } else { rng.below(BLOB_SIZES.len() as u64) as usize };
     let bsize = if bi < BLOB_SIZES.len() { BLOB_SIZES[bi] as u64 } else { 0 };
     let mut call_worker = false;
     match kind % 10 {
         0 => { // LDC mode 0
             dptr(&mut script, a, coff);
             load64(&mut script, b, *rng.pick(&[0u64, 4, csize, csize + 100]));
-            let len = boundary_len(rng, csize);
+            let len = boundary_len(rng, csize, slot);
             load64(&mut script, c, len);
             script.push(Asm::I(op::ldc(a, b, c, 0)));
         }
@@ -413,7 +416,7 @@ fn directed_case(rng: &mut Rng, schedule: GasSchedule, kind: u64) -> Scenario {
             if rng.bool() {
                 dptr(&mut script, a, blob_off[bi]);
                 load64(&mut script, b, *rng.pick(&[0u64, 3, bsize, bsize + 50]));
-                let len = boundary_len(rng, bsize);
+                let len = boundary_len(rng, bsize, slot);
                 load64(&mut script, c, len);
                 script.push(Asm::I(op::ldc(a, b, c, 1)));
             } else {
@@ -425,7 +428,7 @@ fn directed_case(rng: &mut Rng, schedule: GasSchedule, kind: u64) -> Scenario {
             }
         }
         2 => { // CCP
-            let len = boundary_len(rng, csize);
+            let len = boundary_len(rng, csize, slot);
             load64(&mut script, d, len);
             load64(&mut script, e, len + 8);
             script.push(Asm::I(op::aloc(e)));
@@ -442,7 +445,7 @@ fn directed_case(rng: &mut Rng, schedule: GasSchedule, kind: u64) -> Scenario {
             dptr(&mut script, b, blob_off[bi]);
             if rng.chance(1, 3) { script.push(Asm::I(op::bsiz(a, b))); }
             else {
-                let len = boundary_len(rng, bsize);
+                let len = boundary_len(rng, bsize, slot);
                 load64(&mut script, d, len);
                 load64(&mut script, e, len + 8);
                 script.push(Asm::I(op::aloc(e)));
@@ -533,11 +536,11 @@ fn run_c26(args: &Args, out: &mut Out) {
     let with_model = !args.oracle_only;
     // (1) directed: multi-charge / size-dependent instructions with boundary operands, then
     // limits that run out exactly inside them
-    let nd = args.scale(40, 600);
+    let nd = args.scale(44, 600);
     let nd_oracle = args.scale(400, 8000);
     for i in 0..(nd + nd_oracle) {
         let model = with_model && i < nd;
-        let schedule = match i % 3 { 0 => GasSchedule::Default, 1 => GasSchedule::Random(rng.next()), _ => GasSchedule::Unit };
+        let schedule = match (i / 10) % 4 { 0 | 2 => GasSchedule::Default, 1 => GasSchedule::Random(rng.next()), _ => if i % 2 == 0 { GasSchedule::Unit } else { GasSchedule::Random(rng.next()) } };
         let mut scn = directed_case(&mut rng, schedule, i as u64);
         let ample = scn.tx.gas_limit;
         if let Some((_, targets)) = gcase_push(out, &scn, "directed", model) {
@@ -555,7 +558,7 @@ fn run_c26(args: &Args, out: &mut Out) {
         }
     }
     // (2) generated programs
-    let n = args.scale(22, 700);
+    let n = args.scale(16, 700);
     let n_oracle = args.scale(200, 6000);
     for i in 0..(n + n_oracle) {
         let model = with_model && i < n;
